@@ -212,4 +212,19 @@ CLAIMS['C13'] = {
     'note': COMMON_NOTE + "rustc is the oracle here, not a model; 64-bit host only in the quick tier; prologue/epilogue Rust is the user's responsibility; arrays > 32 in defaultable types and private cross-module items are outside the documented fragment.",
     'technique': 'real rustc type-check of the emitted crate (oracle) + Lean 4 proofs that acceptance implies the preconditions of the relevant compiler errors + differential correspondence',
 }
+CLAIMS['C12'] = {
+    'text': ("Theorem text_build_total: for ANY input texts (any bytes, any number of files) and pointer width 4 or 8, the model of `pyxis::build` "
+             "either fails to parse with a position or runs the whole build – add_module, the resolution loop, extern values – to success, an error "
+             "or the non-termination report; never a panic other than the modelled allocation limit of an over-large vftable (alloc_only_for_huge_tables), "
+             "never out of rounds (C10.rounds_bound_suffices). It rests on the registry invariant RegOk/StateOk (new_ok, addModule_ok_partial, "
+             "attempt_ok_partial, attempt_no_panic, build_total_partial, run_total_partial) and on parsed_module_bounded (the parser only yields isize "
+             "literals). For AST inputs with integer literals outside isize the unrestricted statements are refuted inside Lean (kernel-checked "
+             "counterexample: #[align(2^64)] – not producible from text). Lexer and parser models are total functions; parse errors carry a position "
+             "inside the text (C18.parse_error_has_position). On every run ~550 inputs (token / byte soup, mutated texts, boundary integers in every "
+             "numeric position, recursive and cyclic descriptions, raw identifiers) are run through the implementation in forked children with a "
+             "time and memory limit: every observation point must return ok or err, and the model must agree on the outcome class. Stating the "
+             "invariant exposed two real panics (unnamed base field, raw identifiers), both repaired."),
+    'note': COMMON_NOTE + "PARTIAL BY NATURE: stack depth, the allocator, and panics inside syn / proc_macro2 / prettyplease / quote are runtime behaviour no executable model of pyxis exhibits; only the fuzzing part looks at them. 'Time proportional to input' is proved as iteration bounds only. vftable sizes above 10000 slots are not generated.",
+    'technique': 'Lean 4 proof (global registry invariant; no reachable panic site; termination measure) + isolated fuzzing of the implementation + differential outcome-class correspondence',
+}
 NOT_CLAIMED = {}
